@@ -267,6 +267,7 @@ impl AbstractTree for Tree {
     fn clear(&self) -> crate::Result<()> {
         let config = self.tree_config();
         let mut versions = self.get_version_history_lock();
+        let cleared = versions.latest_version();
 
         versions.upgrade_version(
             &config.path,
@@ -279,7 +280,19 @@ impl AbstractTree for Tree {
             },
             &config.seqno,
             &config.visible_seqno,
-        )
+        )?;
+
+        // NOTE: The cleared version's files are not referenced by the new version anymore,
+        // so they can be deleted once the last reader (older super version) is gone
+        for table in cleared.version.iter_tables() {
+            table.mark_as_deleted();
+        }
+
+        for blob_file in cleared.version.blob_files.iter() {
+            blob_file.mark_as_deleted();
+        }
+
+        Ok(())
     }
 
     #[doc(hidden)]
